@@ -745,7 +745,9 @@ pub fn run_compile(run: &mut Run) {
         if let Some(pos) = extra.find("PANIC[") {
             let consumer = extra[..pos].rsplit(' ').next().unwrap_or("?").trim_end_matches('=').to_string();
             let msg: String = extra[pos..].chars().take(200).collect();
-            fail(run, &format!("{consumer}-panic"), format!("ZKIR consumer `{consumer}` panicked on a program decoded from untrusted bytes: {msg}"));
+            // `capacity overflow` = an allocation sized by a field of the input (same class as an abort)
+            let outcome = if msg.starts_with("PANIC[capacity overflow") { "capacity-overflow".to_string() } else { format!("{consumer}-panic") };
+            fail(run, &outcome, format!("ZKIR consumer `{consumer}` panicked on a program decoded from untrusted bytes: {msg}"));
         }
         // memory: linear in the input (automaton) / what a circuit of the requested size needs (programs)
         if (c.auto && peak > crate::alloc::ALLOC_C * c.bytes.len() + (1 << 20)) || peak > (2usize << 30) {
